@@ -45,6 +45,10 @@ def run(rep, prog, tier):
     compression(rep, prog)
     families.check_operation_wiring(rep, prog, 'C03.7')
     families.check_readdressing(rep, prog, 'C03.7')
+    families.check_candidate_search(rep, prog, 'C03.8')
+    # the passphrase packet is only interoperable if the S2K it carries is the RFC 4880 3.7.1 function (shared with C12.1 / C06.8)
+    from rules import C12
+    C12.check_derive_key(rep, prog, 'C03.3', 'C03.3')
     decrypt_wiring(rep, prog)
     families.check_sessionkey_consumers(rep, prog, 'C03.8')
     families.check_pkesk_selection(rep, prog, 'C03.8')
